@@ -14,7 +14,7 @@ RULE = ('ITML and ITML_Supervised on generated pair sets (both labels, non-colla
         'slack bounds are read from the _fit frame at return (sys.setprofile) and the KKT certificate is evaluated by the '
         'harness against its own construction of the prior.  Non-trivial = at least one lambda_i > 0 and one lambda_i == 0 '
         'at return, or the prior-feasible case; distinct by canonical case.')
-ASSUMPTIONS = ['stationarity residual ||M (M0^-1 + sum y_i lambda_i v_i v_i^T) - I|| <= 1e-3 (+ 1e4 eps kappa m) asserted when cond(M) < 1e5 (1.3e-3 was observed at cond 4e6 on the unchanged tree)',
+ASSUMPTIONS = ['stationarity residual ||M (M0^-1 + sum y_i lambda_i v_i v_i^T) - I|| <= 1e-3 (+ 1e4 eps kappa m + 100 eps kappa^2 m) asserted when cond(M) < 1e5 (1.3e-3 was observed at cond 4e6 on the unchanged tree)',
                'convergence clauses (feasibility, complementary slackness at 1e-4) asserted only when n_iter_ < max_iter - 1 with tol = 1e-10',
                'known finding KF1: loss of positive definiteness / NonPSDError when some Bregman projection must move a distance by a factor kappa > 1e6 (large-scale data, or default bounds whose 5th percentile is 0 -> 1e-9)']
 
@@ -151,7 +151,9 @@ def check_c11(case, stats):
   elif cond < 1e5:
     S = Pinv0 + (V.T * (delta * lam)).dot(V)
     resid = np.abs(M.dot(S) - np.eye(d)).max()
-    if resid > 1e-3 + 1e4 * 2.3e-16 * kappa * len(lam):
+    # the first sweeps contract M by up to kappa in one direction: the transient condition number reaches
+    # ~kappa^2 (4.7e9 observed at kappa 3.5e5) and the rounding made there stays in the final relation
+    if resid > 1e-3 + 1e4 * 2.3e-16 * kappa * len(lam) + 100 * 2.3e-16 * kappa ** 2 * len(lam):
       raise Violation('C11/stationarity/' + tag, 'max|M (M0^-1 + sum y lambda v v^T) - I| = %g (cond %g, gamma %g)' % (resid, cond, gamma))
   else:
     stats.inconclusive['cond(M) >= 1e5 (stationarity residual not certifiable)'] += 1
